@@ -34,6 +34,7 @@ import json
 from concurrent.futures import ThreadPoolExecutor
 
 from harness.vlib.core import Ctx
+from harness.c05.front import flush_nf
 from harness.c05 import bind, dun, edges, fr, ops, prog, strb, vt, zipb
 
 MODEL_FILES = ["MypyVerif/Model/VTable.lean", "MypyVerif/Model/ForRange.lean", "MypyVerif/Model/ErrEdges.lean",
@@ -74,9 +75,11 @@ def main(ctx: Ctx) -> None:
         for g in parts:
             next(g)
         vt.run(ctx, col)
-        for g in parts:
+        # phase 2 (no randomness left in it): the batteries first, the parts with many known findings last
+        for g in [parts[3], parts[4], parts[5], parts[2], parts[6], parts[0], parts[1]]:
             next(g, None)
     edges.check(ctx, col)
+    flush_nf(ctx)
     if not proved and not ctx.violations:
         ctx.violation("Lean development for C05 no longer builds", {"broken": ctx.broken_ties}, found_input=False)
 
